@@ -23,6 +23,9 @@ type c07Case struct {
 	G     int    `json:"g,omitempty"`
 	Lo    int    `json:"lo,omitempty"`
 	Hi    int    `json:"hi,omitempty"`
+	MissD []int  `json:"missd,omitempty"`  // explicit: missing data shards
+	AvailP []int `json:"availp,omitempty"` // explicit: available parity shards
+	K     int    `json:"k,omitempty"`      // tight: number of missing data shards = number of available parity shards
 }
 
 func c07NewCoder(kind string, d, p, g int) (rsec16.Coder, error) {
@@ -193,6 +196,52 @@ func c07Gen(g *core.Gen) {
 	for i := 0; i < dL; i += 35 {
 		g.Emit(&c07Case{Kind: "large", Coder: "cauchy", D: dL, P: 20, Lo: i, Hi: i + 1, Len: 6, G: 2})
 	}
+	// tight patterns on codes with many parity rows: EVERY k-subset of missing data x EVERY k-subset of available parity
+	// (non-contiguous surviving rows make leading minors of the decode system vanish, which needs row swaps during elimination)
+	tightCodes := [][2]int{{8, 12}, {5, 12}, {3, 14}}
+	if g.Thorough() {
+		tightCodes = append(tightCodes, [2]int{9, 12}, [2]int{8, 13}, [2]int{6, 14}, [2]int{4, 16})
+	}
+	for _, dp := range tightCodes {
+		for k := 1; k <= dp[0] && k <= dp[1]; k++ {
+			for _, kind := range []string{"vandermonde", "cauchy"} {
+				if kind == "cauchy" && (k%3 != 0 || !g.Thorough()) {
+					continue
+				}
+				g.Emit(&c07Case{Kind: "tight", Coder: kind, D: dp[0], P: dp[1], K: k, Len: 4, G: 1 + k%3})
+			}
+		}
+	}
+	// structured large code (140,260): 3-erasures built on every pair of columns whose 2x2 minor with rows {0,e} vanishes
+	// (found with the reference arithmetic), extended by every third column, with rows {0,e,e+1} and {0,e,259}
+	consts := gf16.Par2Constants(dL)
+	for e := 1; e < pL-1; e++ {
+		pw := make([]uint16, dL)
+		for i := range pw {
+			pw[i] = gf16.Pow(consts[i], uint64(e))
+		}
+		for i := 0; i < dL; i++ {
+			for j := i + 1; j < dL; j++ {
+				if pw[i] != pw[j] {
+					continue
+				}
+				for k := 0; k < dL; k++ {
+					if k == i || k == j {
+						continue
+					}
+					if !g.Thorough() && k%4 != 0 && k != 129 {
+						continue
+					}
+					for _, rows := range [][]int{{0, e, e + 1}, {0, e, pL - 1}, {1, e, e + 1}} {
+						if rows[0] == rows[1] || rows[1] == rows[2] {
+							continue
+						}
+						g.Emit(&c07Case{Kind: "explicit", Coder: "vandermonde", D: dL, P: pL, MissD: []int{i, j, k}, AvailP: rows, Len: 4, G: 2})
+					}
+				}
+			}
+		}
+	}
 	g.Emit(&c07Case{Kind: "limits"})
 }
 
@@ -264,6 +313,56 @@ func c07Run(ci interface{}, r *core.Rec) {
 		r.AddStates(n)
 		r.Outcome(fmt.Sprintf("large %s %d", c.Coder, c.Lo))
 		r.NontrivialCase()
+	case "tight":
+		coder, ok := c07Coder(r, c.Coder, c.D, c.P, c.G)
+		if !ok {
+			return
+		}
+		orig := c07Data(r.Seed, c.D, c.Len)
+		parity := coder.GenerateParity(orig)
+		n := 0
+		forCombos(c.D, c.K, func(md []int) {
+			forCombos(c.P, c.K, func(ap []int) {
+				missD := make([]bool, c.D)
+				for _, i := range md {
+					missD[i] = true
+				}
+				missP := make([]bool, c.P)
+				for i := range missP {
+					missP[i] = true
+				}
+				for _, i := range ap {
+					missP[i] = false
+				}
+				c07Try(r, coder, c.Coder, c.D, c.P, orig, parity, missD, missP)
+				n++
+			})
+		})
+		r.AddStates(n)
+		r.Outcome(fmt.Sprintf("tight %s %d %d %d", c.Coder, c.D, c.P, c.K))
+		r.NontrivialCase()
+	case "explicit":
+		coder, ok := c07Coder(r, c.Coder, c.D, c.P, c.G)
+		if !ok {
+			return
+		}
+		orig := c07Data(r.Seed, c.D, c.Len)
+		parity := coder.GenerateParity(orig)
+		missD := make([]bool, c.D)
+		for _, i := range c.MissD {
+			missD[i] = true
+		}
+		missP := make([]bool, c.P)
+		for i := range missP {
+			missP[i] = true
+		}
+		for _, i := range c.AvailP {
+			missP[i] = false
+		}
+		c07Try(r, coder, c.Coder, c.D, c.P, orig, parity, missD, missP)
+		r.AddStates(1)
+		r.Outcome(fmt.Sprintf("explicit %v %v", c.MissD, c.AvailP))
+		r.NontrivialCase()
 	case "limits":
 		type lim struct {
 			kind  string
@@ -311,7 +410,7 @@ func init() {
 	core.Register(&core.Prop{
 		ID:    "C07",
 		Level: "model_checking",
-		Rule: "bounded-exhaustive erasure patterns: both coders x every (d<=6,p<=5) (thorough d<=8,p<=6) x EVERY subset of missing data shards x EVERY subset of missing parity shards x shard length {2,4,14,16,18,32,34,66} x goroutines {1,2,3,5}; Vandermonde parity also compared with the reference sum; structured large code (140,260): 2-erasures with only parity rows {0,e} available for every e (contains the construction's singular pairs), Cauchy (140,20); the documented limits. " +
+		Rule: "bounded-exhaustive erasure patterns: both coders x every (d<=6,p<=5) (thorough d<=8,p<=6) x EVERY subset of missing data shards x EVERY subset of missing parity shards x shard length {2,4,14,16,18,32,34,66} x goroutines {1,2,3,5}; Vandermonde parity also compared with the reference sum; structured large code (140,260): 2-erasures with only parity rows {0,e} available for every e (contains the construction's singular pairs), and 3-erasures built on every column pair whose 2x2 minor vanishes (zero pivots, i.e. row swaps during elimination) x every third column x three row sets; tight patterns on (8,12),(5,12),(3,14) (thorough more): every k-subset of missing data x every k-subset of surviving parity; Cauchy (140,20); the documented limits. " +
 			"Oracle: too few parity => NotEnoughParityShardsError; Cauchy always exact; Vandermonde exact iff the reference determinant of (lowest available rows x missing columns) != 0, else error or exact; nil => exact; supplied data shards unchanged. non-trivial = every case (all contain reconstructions)",
 		Assumptions: []string{"the statement does not constrain supplied parity shards; they are not compared"},
 		NewCase:     func() interface{} { return &c07Case{} },
